@@ -14,9 +14,9 @@ except ImportError:
 def run(tier, seed):
     chk = vlib.Check("C05", tier, seed)
     alloc_common.run_alloc(chk, tier, seed, small_depth=4 if tier == "quick" else 5)
-    chk.distinct = chk.stats.get("nontrivial_histories", 0)
     if sim_common is not None:
         sim_common.run_sim_for(chk, "C05", tier, seed)
+    chk.distinct = chk.stats.get("nontrivial_histories", 0) + len(chk.sigs)
     chk.rule = ("allocator engine: seeded histories (malloc/calloc/realloc/free/write, sizes 1..64 KiB around powers of two) with checkpoints at "
                 "arbitrary positions and rollbacks to targets at / between / before checkpoints, repeated rollbacks, growth to tens of arenas after "
                 "the restored checkpoint; the state after restore is compared byte-for-byte and map-for-map with the shadow snapshot and after "
@@ -24,4 +24,4 @@ def run(tier, seed):
                 "in arenas created later); non-trivial as for C12/C13; distinct by seed")
     chk.assumptions = ["pointer values stored inside model state are not compared (re-executed allocations may land at other addresses: counted as "
                        "coast_forward_address_divergences, not a violation)"]
-    return chk.finish(min_evals=20, require={"restores": 1000, "restores_to_non_checkpoint_target": 500, "arenas_created_after_a_checkpoint": 100, "coast_forward_ops": 1000})
+    return chk.finish(min_evals=20, require={"rollback_state_digests_checked": 1000, "rollbacks_coast_many": 50, "rollbacks_coast_0": 10, "restores": 1000, "restores_to_non_checkpoint_target": 500, "arenas_created_after_a_checkpoint": 100, "coast_forward_ops": 1000})
